@@ -214,8 +214,9 @@ def check(ctx):
                                  ("op", "@", rw, ("op", "@", prec_, cl_))):
                         ok_form = True
             ax = kw(quad[0], "axis", 1)
+            # (without `axis` squeeze would also drop batch dimensions of length 1)
             ok_q = ok_q and ok_form and ax in (("tuple", (c(-2), c(-1))),
-                                               ("tuple", (c(-1), c(-2))), None)
+                                               ("tuple", (c(-1), c(-2))))
         ok_lp = ok_lp and ok_q
     except Untranslatable as ex:
         detail = f"untranslatable: {short(ex.args[0])}"
